@@ -280,6 +280,7 @@ Record scans (d : dsp) (E L A idx : list Z) : Prop := {
                    spaced 0 (first_potential_auto d - auto_dly_of d) EL /\
                    (forall x, In x EL <-> In x E \/ In x L)
             else A = [];
+  sc_only_edge : ts_level (d_ts d) = false -> ts_auto (d_ts d) = false -> idx = E;
   sc_in : forall x, In x idx <-> In x E \/ In x L \/ In x A;
   sc_sorted : spaced 0 (d_npre d) idx;
   sc_range : forall i, In i idx -> d_npre d <= i /\ i + d_nsamp d - d_npre d < zlen (st_data (d_stream d))
@@ -364,6 +365,8 @@ Proof.
     + apply HELsp. exact Hfl.
     + apply HELin.
     + apply HELin.
+  - change (ts_level (d_ts d)) with (ts_level ts). change (ts_auto (d_ts d)) with (ts_auto ts).
+    intros H1 H2. rewrite H2. unfold EL. now rewrite H1.
   - destruct (ts_auto ts).
     + apply sort_spaced. intros x Hx. apply (sort_in (EL ++ A)) in Hx. apply Hrange in Hx. lia.
     + apply HELsp. lia.
